@@ -5,6 +5,7 @@ package main
 import (
 	"fmt"
 	"github.com/alicebob/miniredis/v2"
+	"github.com/alicebob/miniredis/v2/server"
 	"net/http"
 	"net/http/httptest"
 	"net/url"
@@ -57,6 +58,7 @@ func driveC11(t *testing.T, out *vEmitter) {
 	vExploreSignOutRaces(t, out, vSchedEnv(t))
 	vExploreSignOutFlaky(t, out, vSchedEnv(t))
 	vC11RealRedisSignOut(t, out)
+	vC11RealRedisFaults(t, out)
 
 	type cfg struct {
 		name    string
@@ -285,6 +287,105 @@ func vIncompressible(n int) string {
 // vC11RealRedisSignOut: the real Redis client and its lock (on miniredis).  A request refreshes a stale session at a
 // slow provider and holds the refresh lock; the sign-out arrives meanwhile and has to WAIT for that lock.  When both
 // are finished the stored session is gone and the pre-sign-out cookie authenticates nobody.
+// vC11RealRedisFaults: sign-out through the REAL redis client (pkg/sessions/redis/client.go over go-redis) against an
+// in-process redis server that fails chosen commands of the sign-out request on the wire: a sign-out answered with
+// the success redirect leaves no stored session behind, whichever command failed.
+func vC11RealRedisFaults(t *testing.T, out *vEmitter) {
+	mr, err := miniredis.Run()
+	if err != nil {
+		out.Stat("miniredis_unavailable", 1)
+		return
+	}
+	defer mr.Close()
+	e := vNewEnv(t, vEnvCfg{oidc: true, mod: func(o *options.Options) {
+		o.Session.Type = options.RedisSessionStoreType
+		o.Session.Redis.ConnectionURL = "redis://" + mr.Addr()
+		o.Cookie.Refresh = time.Hour
+		o.Providers[0].OIDCConfig.InsecureSkipNonce = true
+	}})
+	type plan struct {
+		cmd      string
+		nth      int  // which occurrence of cmd within the sign-out request fails (-1: all)
+		lockOnly bool // only commands on a ".lock" key
+		dataOnly bool // only commands on a key that is not a ".lock" key
+	}
+	plans := []plan{{"", 0, false, false}}
+	for _, c := range []string{"DEL", "GET", "SET", "EVALSHA", "EVAL", "UNLINK", "EXISTS"} {
+		for _, nth := range []int{0, 1, -1} {
+			plans = append(plans, plan{c, nth, false, false})
+		}
+		plans = append(plans, plan{c, -1, true, false}, plan{c, -1, false, true})
+	}
+	for _, stale := range []bool{false, true} {
+		for _, pl := range plans {
+			pl := pl
+			mr.FlushAll()
+			e.idp.stdToken("user@example.com", "", nil)
+			b := e.newBrowser("https://app.example.com")
+			age := time.Minute
+			if stale {
+				age = 2 * time.Hour // the sign-out request refreshes the session first (lock, provider, save, release)
+			}
+			b.seedSession("user@example.com", age, 30)
+			cookie := b.cookieHeader("/")
+			var mu sync.Mutex
+			seen := map[string]int{}
+			var failed []string
+			mr.Server().SetPreHook(func(c *server.Peer, cmd string, args ...string) bool {
+				mu.Lock()
+				defer mu.Unlock()
+				up := strings.ToUpper(cmd)
+				if pl.cmd == "" || up != pl.cmd {
+					return false
+				}
+				isLock := false
+				for _, a := range args {
+					if strings.HasSuffix(a, ".lock") {
+						isLock = true
+					}
+				}
+				if (pl.lockOnly && !isLock) || (pl.dataOnly && isLock) {
+					return false
+				}
+				n := seen[up]
+				seen[up]++
+				if pl.nth >= 0 && n != pl.nth {
+					return false
+				}
+				failed = append(failed, up+" "+strings.Join(args, " "))
+				c.WriteError("ERR injected store fault")
+				return true
+			})
+			req, _ := vRawRequest(vBuildRaw("GET", "/oauth2/sign_out", "app.example.com", [][2]string{{"Cookie", cookie}}, ""))
+			res := e.serve(req)
+			mr.Server().SetPreHook(nil)
+			left := 0
+			for _, k := range mr.Keys() {
+				if !strings.HasSuffix(k, ".lock") {
+					left++
+				}
+			}
+			rq, _ := vRawRequest(vBuildRaw("GET", "/oauth2/auth", "app.example.com", [][2]string{{"Cookie", cookie}}, ""))
+			replay := e.serve(rq)
+			out.Obs("real-redis-signout-fault", true, vL(vS(pl.cmd), vI(int64(pl.nth)), vBool(pl.lockOnly), vBool(pl.dataOnly), vBool(stale), vI(int64(len(failed))), vI(int64(res.Status)), vI(int64(left)), vI(int64(replay.Status))))
+			out.Stat("real_redis_signout_fault_runs", 1)
+			if len(failed) > 0 {
+				out.Stat("real_redis_signout_faults_effective", 1)
+			}
+			det := map[string]interface{}{"store": "miniredis+go-redis", "failed_commands": failed, "stale_session": stale, "sign_out_status": res.Status,
+				"stored_sessions_left": left, "replay_status": replay.Status}
+			if res.Panic != nil {
+				out.Violation("signout/panic", fmt.Sprintf("sign-out panicked under a store fault: %v", res.Panic), det)
+				continue
+			}
+			if res.Status == 302 && (left > 0 || replay.Status == 202) {
+				out.Violation("signout/success-while-session-stored", "sign-out answered with the success redirect although the stored session could not be removed",
+					det)
+			}
+		}
+	}
+}
+
 func vC11RealRedisSignOut(t *testing.T, out *vEmitter) {
 	mr, err := miniredis.Run()
 	if err != nil {
